@@ -37,6 +37,7 @@ func init() {
 		Batch:            1,
 		Workers:          4,
 		PanicIsViolation: true,
+		BenignCrash:      cluster.StartupRace,
 		BatchTimeout:     20 * time.Minute,
 		Env:              []string{"VERIF_TIMER_DIV=10"},
 		Run:              runC10,
